@@ -1,12 +1,36 @@
 /-
-  Props/C07.lean — declared schema matches the computed data (label level).
-  PARTIAL by nature: dtype kinds come from pandas' own inference on stand-in data (`meta_nonempty`,
-  `_emulate`), which is outside the model; container kind / labels / order are modelled for the
-  label-level operators and checked end-to-end for every node of every vetted plan.
+  Props/C07.lean — declared schema matches the computed data.
+
+  1. label level (DxModel/Schema.lean): declared labels = labels of the computed frame for the label-level operators,
+     through chains, for every partition.
+  2. expression trees (DxModel/Meta.lean): for Projection, RenameFrame/RenameSeries, AddPrefix/AddSuffix, Drop, Assign,
+     the schema-preserving row operators, ResetIndex, SetIndex, Index, ToSeriesIndex/ToFrameIndex, ToFrame, ValueCounts,
+     the frame / series reductions, Len, groupby aggregations over column keys, Merge on columns and Concat (rows /
+     columns): `declT` transliterates every `_meta`, `compT` what one partition of the lowered expression is computed
+     from (chunk/combine/aggregate trees of any shape, the shuffle helper column, `merge_chunk(result_meta)`,
+     `StackPartition`'s pass-through-or-restack).  `C07_tree_sound_partial`: every computed partition of every guarded
+     tree has exactly the declared schema — container, labels, order, names, index levels and dtype kinds.
+     The guards are the side conditions under which the code really does what it declares; their negations are kept as
+     counterexample theorems and as failing inputs of the real code (harness/props/c07.py).
+  3. optimizer: the projection push-down of `Dx.Cols`, applied to trees, keeps the declared schema of the root.
+  4. dtype kinds: `Kind.promotes` is the promotion the comparison tolerates ("int/bool columns that acquire missing
+     values"); it is never used to make a theorem above true — those are equalities.
+
+  PARTIAL by nature: pandas' own inference on the stand-in data (the schema-level primitives of Meta.lean part 2) is the
+  trusted boundary, tied to pandas by the correspondence families.
 -/
 import DxModel.Schema
+import DxModel.Meta
+import DxModel.MetaPush
+import DxModel.Lemmas.Meta
+import DxModel.Lemmas.MetaConcat
+import DxModel.Lemmas.MetaPush
+import DxModel.Lemmas.MetaPushMerge
+import DxModel.Lemmas.MetaPushConcat
 namespace Dx
 open Schema
+
+/-! ## 1. label level -/
 
 /-- declared labels = labels of the computed frame, for every modelled operator and every frame -/
 theorem C07_labels (op : Op) (f : Frame) : labels (evalOp op f) = schemaOp op (labels f) :=
@@ -33,5 +57,333 @@ example : schemaChain [.rename [("a", "A")], .addPrefix "p_", .proj ["p_b", "p_A
   decide
 example : labels (evalChain [.assign "z" (fun i => i), .dropCols ["a"]] [("a", [1, 2]), ("b", [3, 4])]) = ["b", "z"] := by
   decide
+
+end Dx
+
+namespace Dx
+open Meta
+
+/-! ## 2. per-operator: the task pipeline computes what `_meta` declares -/
+
+/-- frame / series reductions: a tree reduction of ANY shape (`batch`, `depth`, `nagg`) over partitions of schema `s`
+    ends in the schema `Reduction._meta` derives from one chunk of the stand-in; `Mean` (declared by pandas' `mean`,
+    computed as `sum / count`) needs numeric columns -/
+theorem C07_op_reduce (f : Agg) (rt : Rt) (s : Sch) (hg : guardReduce f s = true) :
+    taskReduce f rt s = declReduce f s := taskReduce_sound f rt s hg
+
+/-- FULL STATEMENT (false on the current tree): `C07_op_reduce` without the guard.  `df.e.mean()` of a datetime column
+    is declared (a Timestamp) but `Mean._lower` computes `sum / count` and pandas has no sum of datetimes (D90). -/
+theorem C07_mean_datetime_counterexample :
+    declReduce .mean (.series (some "e") .dt rangeIdx) = .scalar .dt ∧
+    taskReduce .mean {} (.series (some "e") .dt rangeIdx) = .bad := by decide
+
+/-- groupby aggregations over column keys (sum, min, max, first, last, count, size, mean): any tree shape -/
+theorem C07_op_groupby (keys : List Name) (sl : Slice) (f : Agg) (rt : Rt) (s : Sch) :
+    taskGroupby keys sl f rt s = declGroupby keys sl f s := taskGroupby_eq keys sl f rt s
+
+/-- value_counts: chunk → combine → aggregate computes the hand-written `_meta` (name `count` / `proportion`) -/
+theorem C07_op_value_counts (nz : Bool) (rt : Rt) (s : Sch) :
+    treeReduce vcChunk vcCombine (vcAggregate nz) rt s = pValueCounts nz s := taskValueCounts_eq nz rt s
+
+/-- set_index on a column, blockwise or through `SetPartition` (assign `_partitions`, shuffle, project it away,
+    `_SetIndexPost`) -/
+theorem C07_op_set_index (c : Name) (d : Bool) (rt : Rt) (m s : Sch) (hg : guardU (.setIndex c d) rt s = true) :
+    taskU (.setIndex c d) rt m s = declU (.setIndex c d) s := taskSetIndex_eq c d rt m s hg
+
+/-- FULL STATEMENT (false on the current tree): `C07_op_set_index` without the guard.  A user column named
+    `_partitions` is overwritten by the shuffle's helper column and projected away with it (D88). -/
+theorem C07_reserved_label_counterexample :
+    declU (.setIndex "a" true) (.frame [("_partitions", .int), ("a", .int), ("b", .obj)] rangeIdx) =
+      .frame [("_partitions", .int), ("b", .obj)] [(some "a", .int)] ∧
+    taskU (.setIndex "a" true) { path := 1 } .bad (.frame [("_partitions", .int), ("a", .int), ("b", .obj)] rangeIdx) =
+      .frame [("b", .obj)] [(some "a", .int)] := by decide
+
+/-- merge on columns: blockwise or hash join (both sides through `RearrangeByColumn`), `merge_chunk` with an empty
+    left partition re-ordered by `result_meta` -/
+theorem C07_op_merge (m : MergeP) (rt : Rt) (l r : Sch) (hg : guardMerge rt l r = true) :
+    taskMerge m rt (declMerge m l r) l r = declMerge m l r := taskMerge_eq m rt l r hg
+
+/-- Concat: every output partition — passed through when `check_meta`, the index names and the series name agree with
+    the declaration, otherwise re-stacked onto the declared meta — carries the declared schema; row-wise the declared
+    kinds already hold the promotion of columns that some input lacks (D85) -/
+theorem C07_op_concat (a i : Bool) (rt : Rt) (ss : List Sch) (hg : guardConcat a (declConcat a i ss) ss = true) :
+    taskConcat a i rt (declConcat a i ss) ss = declConcat a i ss := taskConcat_eq a i rt ss hg
+
+/-- D89 (fixed): inputs with different index names / series names are no longer passed through -/
+example : taskConcat false false { which := 1 }
+      (declConcat false false [.frame [("a", .int)] [(some "i", .int)], .frame [("a", .int)] [(some "j", .int)]])
+      [.frame [("a", .int)] [(some "i", .int)], .frame [("a", .int)] [(some "j", .int)]] =
+    .frame [("a", .int)] [(none, .int)] := by decide
+example : taskConcat false false { which := 1 }
+      (declConcat false false [.series (some "a") .int rangeIdx, .series (some "b") .int rangeIdx])
+      [.series (some "a") .int rangeIdx, .series (some "b") .int rangeIdx] = .series none .int rangeIdx := by decide
+
+/-- every unary operator of the model -/
+theorem C07_unary_sound (op : UOp) (rt : Rt) (s : Sch) (hg : guardU op rt s = true) :
+    taskU op rt (declU op s) s = declU op s := by
+  cases op with
+  | getCols cs => cases s <;> first | rfl | simp [guardU] at hg
+  | getCol c => cases s <;> first | rfl | simp [guardU] at hg
+  | rename m => rfl
+  | renameSeries n => rfl
+  | addPrefix p => rfl
+  | addSuffix x => rfl
+  | dropCols cs => rfl
+  | keep => rfl
+  | resetIndex d => rfl
+  | setIndex c d => exact taskSetIndex_eq c d rt _ s hg
+  | index => cases s <;> first | rfl | simp [guardU] at hg
+  | indexToSeries => rfl
+  | indexToFrame n => rfl
+  | toFrame n => rfl
+  | valueCounts nz => exact taskValueCounts_eq nz rt s
+  | reduce f => exact taskReduce_sound f rt s (by simpa [guardU] using hg)
+  | len => rfl
+  | gbAgg keys sl f => exact taskGroupby_eq keys sl f rt s
+
+/-! ## 2'. whole expression trees -/
+
+mutual
+/-- FULL STATEMENT (false on the current tree): `∀ t, compT t = declT t`.
+    PARTIAL: under `guardT` — every node meets the side condition of its operator (no user column `_partitions`
+    and duplicate-free labels in front of a shuffle; numeric columns under `mean`; no column-less input and equal index
+    kinds in a Concat; `x.index` only of frames and series).  Counterexamples: `C07_reserved_label_counterexample`,
+    `C07_mean_datetime_counterexample`.
+
+    Every computed partition of every query built from the modelled operators has exactly the declared schema:
+    container kind, labels and their order, series name, index level names, and dtype kinds. -/
+theorem C07_tree_sound_partial : ∀ (t : Tree), guardT t = true → compT t = declT t
+  | .src _, _ => rfl
+  | .un op rt t, h => by
+    simp only [guardT, Bool.and_eq_true] at h
+    simp only [compT, declT]
+    rw [C07_tree_sound_partial t h.1]
+    exact C07_unary_sound op rt _ h.2
+  | .assign c t v, h => by
+    simp only [guardT, Bool.and_eq_true] at h
+    simp only [compT, declT]
+    rw [C07_tree_sound_partial t h.1, C07_tree_sound_partial v h.2]
+  | .merge m rt l r, h => by
+    simp only [guardT, Bool.and_eq_true] at h
+    simp only [compT, declT]
+    rw [C07_tree_sound_partial l h.1.1, C07_tree_sound_partial r h.1.2]
+    exact taskMerge_eq m rt _ _ h.2
+  | .concat a i rt ts, h => by
+    simp only [guardT, Bool.and_eq_true] at h
+    simp only [compT, declT]
+    rw [C07_trees_sound_partial ts h.1]
+    exact taskConcat_eq a i rt _ h.2
+theorem C07_trees_sound_partial : ∀ (ts : List Tree), guardTs ts = true → compTs ts = declTs ts
+  | [], _ => rfl
+  | t :: ts, h => by
+    simp only [guardTs, Bool.and_eq_true] at h
+    simp only [compTs, declTs]
+    rw [C07_tree_sound_partial t h.1, C07_trees_sound_partial ts h.2]
+end
+
+mutual
+/-- the declared schema does not see the run-time shape (number of partitions, tree depth, lowering path, which
+    partition is looked at) -/
+theorem C07_decl_rt_independent (g : Rt → Rt) : ∀ (t : Tree), declT (mapRt g t) = declT t
+  | .src _ => rfl
+  | .un op rt t => by simp only [mapRt, declT, C07_decl_rt_independent g t]
+  | .assign c t v => by simp only [mapRt, declT, C07_decl_rt_independent g t, C07_decl_rt_independent g v]
+  | .merge m rt l r => by simp only [mapRt, declT, C07_decl_rt_independent g l, C07_decl_rt_independent g r]
+  | .concat a i rt ts => by simp only [mapRt, declT, C07_decls_rt_independent g ts]
+theorem C07_decls_rt_independent (g : Rt → Rt) : ∀ (ts : List Tree), declTs (mapRts g ts) = declTs ts
+  | [] => rfl
+  | t :: ts => by simp only [mapRts, declTs, C07_decl_rt_independent g t, C07_decls_rt_independent g ts]
+end
+
+/-- every individual partition carries the same schema: whatever partition of whatever lowering of the query is
+    looked at (`g` re-chooses the run-time shape of every node), it is the declared schema of the query -/
+theorem C07_tree_partitions_partial (g : Rt → Rt) (t : Tree) (h : guardT (mapRt g t) = true) :
+    compT (mapRt g t) = declT t := by
+  rw [C07_tree_sound_partial _ h, C07_decl_rt_independent]
+
+/-! ## 3. optimization keeps the declared schema: projection push-down
+
+`pushdown deps t` applies the `_simplify_up(Projection)` rule of the operator below the root projection, for ANY list
+`deps` of further dependents.  Every theorem: the rewritten tree declares what the query declared. -/
+
+/-- schema-preserving operators (Filter with its predicate elsewhere, pass-through blockwise operators, head, tail,
+    sort_values, …): `plain_column_projection` -/
+theorem C07_push_keep (deps : List Cols.Dep) (pop : UOp) (prt rt : Rt) (t t' : Tree) (p : Cols.Parent)
+    (hp : parentOf pop = some p) (cols : List Col) (idx : List Lvl) (hS : declT t = .frame cols idx)
+    (h : pushdown deps (.un pop prt (.un .keep rt t)) = some t') :
+    declT t' = declT (.un pop prt (.un .keep rt t)) := push_keep deps pop prt rt t t' p hp cols idx hS h
+
+theorem C07_push_set_index (deps : List Cols.Dep) (pop : UOp) (prt rt : Rt) (c : Name) (d : Bool) (t t' : Tree) (p : Cols.Parent)
+    (hp : parentOf pop = some p) (cols : List Col) (idx : List Lvl) (hS : declT t = .frame cols idx)
+    (h : pushdown deps (.un pop prt (.un (.setIndex c d) rt t)) = some t') :
+    declT t' = declT (.un pop prt (.un (.setIndex c d) rt t)) := push_setIndex deps pop prt rt c d t t' p hp cols idx hS h
+
+/-- FULL STATEMENT: for every selection `g[columns]` of the groupby and every aggregation.
+    PARTIAL: no selection or a list selection (a scalar selection gives a Series: the parent is not a frame
+    projection), and not `mean` (its chunk has columns of its own). -/
+theorem C07_push_groupby_partial (deps : List Cols.Dep) (pop : UOp) (prt rt : Rt) (keys : List Name) (sl : Slice)
+    (hsl : ∀ c, sl ≠ .one c) (f : Agg) (hf : f ≠ .mean) (t t' : Tree) (p : Cols.Parent)
+    (hp : parentOf pop = some p) (cols : List Col) (idx : List Lvl) (hS : declT t = .frame cols idx)
+    (hok : declT (.un pop prt (.un (.gbAgg keys sl f) rt t)) ≠ .bad)
+    (h : pushdown deps (.un pop prt (.un (.gbAgg keys sl f) rt t)) = some t') :
+    declT t' = declT (.un pop prt (.un (.gbAgg keys sl f) rt t)) :=
+  push_groupby deps pop prt rt keys sl hsl f hf t t' p hp cols idx hS hok h
+
+/-- D96 (fixed): `df.groupby('k')[['a','b']].sum()[['a']]` — `groupby_projection` keeps the list selection in the
+    pruned input (before the fix the optimized query raised KeyError 'b') -/
+example :
+    let q := Tree.un (.getCols ["a"]) {} (.un (.gbAgg ["k"] (.many ["a", "b"]) .sum) {}
+      (.src (.frame [("a", .int), ("b", .float), ("c", .obj), ("k", .int)] rangeIdx)))
+    declT q = .frame [("a", .int)] [(some "k", .int)] ∧
+    (pushdown [] q).map declT = some (declT q) ∧ (pushdown [] q).isSome = true := by decide
+
+theorem C07_push_reset_index (deps : List Cols.Dep) (pop : UOp) (prt rt : Rt) (d : Bool) (t t' : Tree) (p : Cols.Parent)
+    (hp : parentOf pop = some p) (cols : List Col) (idx : List Lvl) (hS : declT t = .frame cols idx)
+    (hok : declT (.un pop prt (.un (.resetIndex d) rt t)) ≠ .bad)
+    (h : pushdown deps (.un pop prt (.un (.resetIndex d) rt t)) = some t') :
+    declT t' = declT (.un pop prt (.un (.resetIndex d) rt t)) :=
+  push_resetIndex deps pop prt rt d t t' p hp cols idx hS hok h
+
+theorem C07_push_rename (deps : List Cols.Dep) (pop : UOp) (prt rt : Rt) (m : List (Name × Name)) (t t' : Tree) (p : Cols.Parent)
+    (hp : parentOf pop = some p) (cols : List Col) (idx : List Lvl) (hS : declT t = .frame cols idx)
+    (hn : (Meta.labels cols).Nodup) (hnd : (m.map (·.1)).Nodup)
+    (huniq : ∀ x x', x ∈ Meta.labels cols → x' ∈ Meta.labels cols → renameOne m x ∈ p.cols →
+      renameOne m x' = renameOne m x → x' = x)
+    (h : pushdown deps (.un pop prt (.un (.rename m) rt t)) = some t') :
+    declT t' = declT (.un pop prt (.un (.rename m) rt t)) :=
+  push_rename deps pop prt rt m t t' p hp cols idx hS hn hnd huniq h
+
+theorem C07_push_prefix (deps : List Cols.Dep) (pop : UOp) (prt rt : Rt) (pre : String) (t t' : Tree) (p : Cols.Parent)
+    (hp : parentOf pop = some p) (cols : List Col) (idx : List Lvl) (hS : declT t = .frame cols idx)
+    (hn : (Meta.labels cols).Nodup)
+    (h : pushdown deps (.un pop prt (.un (.addPrefix pre) rt t)) = some t') :
+    declT t' = declT (.un pop prt (.un (.addPrefix pre) rt t)) := push_prefix deps pop prt rt pre t t' p hp cols idx hS hn h
+
+/-- FULL STATEMENT (false on the current tree, C04_suffix_counterexample): for the empty suffix as well -/
+theorem C07_push_suffix_partial (deps : List Cols.Dep) (pop : UOp) (prt rt : Rt) (suf : String) (hsuf : suf.length ≠ 0)
+    (t t' : Tree) (p : Cols.Parent)
+    (hp : parentOf pop = some p) (cols : List Col) (idx : List Lvl) (hS : declT t = .frame cols idx)
+    (hn : (Meta.labels cols).Nodup)
+    (h : pushdown deps (.un pop prt (.un (.addSuffix suf) rt t)) = some t') :
+    declT t' = declT (.un pop prt (.un (.addSuffix suf) rt t)) :=
+  push_suffix_partial deps pop prt rt suf hsuf t t' p hp cols idx hS hn h
+
+/-- FULL STATEMENT (false on the current tree, C04_merge_counterexample / N1): without `KeysDoNotCollide`.
+    Labels with their suffixes, kinds and the fresh index of `left.merge(right)[P]` survive the pruning of both inputs. -/
+theorem C07_push_merge_partial (deps : List Cols.Dep) (pop : UOp) (prt rt : Rt) (m : MergeP) (l r t' : Tree) (p : Cols.Parent)
+    (hp : parentOf pop = some p) (L : List Col) (li : List Lvl) (R : List Col) (ri : List Lvl)
+    (hL : declT l = .frame L li) (hR : declT r = .frame R ri)
+    (hLn : (Meta.labels L).Nodup) (hRn : (Meta.labels R).Nodup)
+    (hkeys : Cols.KeysDoNotCollide m.cp (Meta.labels L) (Meta.labels R))
+    (hok : declT (.un pop prt (.merge m rt l r)) ≠ .bad)
+    (h : pushdown deps (.un pop prt (.merge m rt l r)) = some t') :
+    declT t' = declT (.un pop prt (.merge m rt l r)) :=
+  push_merge deps pop prt rt m l r t' p hp L li R ri hL hR hLn hRn hkeys hok h
+
+/-- FULL STATEMENT (false on the current tree, D35): for `axis=1` as well (see the counterexample below).
+    Row-wise concat: labels, order, the kinds — including the promotion caused by an input that has none of the requested
+    columns (it keeps its first column, D85) — and the common index survive the pruning of every input. -/
+theorem C07_push_concat_rows_partial (deps : List Cols.Dep) (pop : UOp) (prt rt : Rt) (inner : Bool) (ts : List Tree) (t' : Tree)
+    (p : Cols.Parent) (hp : parentOf pop = some p) (Cs : List (List Col)) (Is : List (List Lvl)) (hA : AllFrames ts Cs Is)
+    (hcols : ∀ C, C ∈ Cs → C ≠ []) (hnd : ∀ C, C ∈ Cs → (Meta.labels C).Nodup)
+    (hok : declT (.un pop prt (.concat false inner rt ts)) ≠ .bad)
+    (h : pushdown deps (.un pop prt (.concat false inner rt ts)) = some t') :
+    declT t' = declT (.un pop prt (.concat false inner rt ts)) :=
+  push_concat_rows deps pop prt rt inner ts t' p hp Cs Is hA hcols hnd hok h
+
+/-- D85 as it would be without the fix is excluded by the model of the rule: the frame without a requested column keeps
+    one column, so the declared kind of `d` stays float -/
+example :
+    let q := Tree.un (.getCols ["d"]) {} (.concat false false {}
+      [.src (.frame [("a", .int), ("b", .int)] rangeIdx), .src (.frame [("c", .int), ("d", .int)] rangeIdx)])
+    declT q = .frame [("d", .float)] rangeIdx ∧ (pushdown [] q).map declT = some (.frame [("d", .float)] rangeIdx) := by
+  decide
+
+/-- D35 seen at schema level: `concat([A, B], axis=1)[['a']]` with differently indexed inputs declares a float column
+    (the stand-ins do not align); the rule removes `B` from the Concat and the optimized query declares an integer -/
+theorem C07_push_concat_axis1_counterexample :
+    let q := Tree.un (.getCols ["a"]) {} (.concat true false {}
+      [.src (.frame [("a", .int), ("b", .int)] rangeIdx), .src (.frame [("c", .int), ("d", .int)] [(some "id", .int)])])
+    declT q = .frame [("a", .float)] [(none, .int)] ∧
+    (pushdown [] q).map declT = some (.frame [("a", .int)] rangeIdx) := by decide
+
+/-! ## 4. the tolerated promotion -/
+
+/-- a column that acquires missing values is computed with a kind the comparison tolerates -/
+theorem C07_promotes_na (k : Kind) : Kind.promotes k k.na := Kind.promotes_na k
+
+theorem C07_promotes_refl (s : Sch) : SchPromotes s s := by
+  have hc : ∀ (l : List Col), colsPromote l l := by
+    intro l
+    induction l with
+    | nil => trivial
+    | cons a t ih => exact ⟨rfl, Kind.promotes_refl _, ih⟩
+  have hl : ∀ (l : List Lvl), lvlsPromote l l := by
+    intro l
+    induction l with
+    | nil => trivial
+    | cons a t ih => exact ⟨rfl, Kind.promotes_refl _, ih⟩
+  cases s with
+  | frame c i => exact ⟨hc c, hl i⟩
+  | series n k i => exact ⟨rfl, Kind.promotes_refl _, hl i⟩
+  | index l => exact hl l
+  | scalar k => exact Kind.promotes_refl _
+  | bad => trivial
+
+/-- the partition of an outer / left / right join with unmatched rows, or of a concat whose input lacks columns:
+    whichever columns `w` acquire missing values, the computed frame is the declared one up to the promotion -/
+theorem C07_promotion_frame (w : Name → Bool) (cols : List Col) (idx : List Lvl) :
+    SchPromotes (.frame cols idx) (.frame (naCols w cols) idx) := by
+  constructor
+  · induction cols with
+    | nil => trivial
+    | cons a t ih =>
+      simp only [naCols, List.map_cons]
+      by_cases h : w a.1 = true
+      · simp only [h, if_true]; exact ⟨rfl, Kind.promotes_na _, ih⟩
+      · simp only [h, Bool.false_eq_true, if_false]; exact ⟨rfl, Kind.promotes_refl _, ih⟩
+  · have := C07_promotes_refl (.index idx)
+    exact this
+
+/-- … and nothing else is tolerated: a float never counts as the integer it was declared to be the other way round,
+    a datetime never as an object -/
+example : ¬ Kind.promotes .float .int ∧ ¬ Kind.promotes .dt .obj ∧ Kind.promotes .bool .obj ∧ Kind.promotes .int .float := by
+  decide
+
+/-! ## 5. non-vacuity -/
+
+-- a guarded tree with a merge through a shuffle, a groupby tree reduction of depth 2 and a reset_index
+example :
+    let t := Tree.un (.resetIndex false) {} (.un (.gbAgg ["k"] .all .sum) { batch := 3, depth := 2, nagg := 1 }
+      (.merge { how := .left, leftOn := ["k"], rightOn := ["k"], ls := "_x", rs := "_y" } { path := 1, emptyLhs := true }
+        (.src (.frame [("k", .int), ("a", .int), ("b", .float)] rangeIdx))
+        (.src (.frame [("k", .int), ("b", .bool), ("z", .obj)] [(some "id", .int)]))))
+    guardT t = true ∧ compT t = .frame [("k", .int), ("a", .int), ("b_x", .float), ("b_y", .int), ("z", .obj)] rangeIdx ∧
+      declT t = compT t := by decide
+
+-- frame reduction → series over the labels → selection of one label → scalar
+example : declT (.un (.getCol "a") {} (.un (.reduce .mean) { depth := 3, batch := 2 }
+      (.src (.frame [("a", .int), ("c", .bool)] rangeIdx)))) = .scalar .float := by decide
+
+-- a row-wise concat whose second input lacks a column: declared float, every partition float (re-stacked onto the meta)
+example :
+    let ss := [Sch.frame [("a", .int), ("b", .int)] rangeIdx, Sch.frame [("a", .int)] rangeIdx]
+    declConcat false false ss = .frame [("a", .int), ("b", .float)] rangeIdx ∧
+    guardConcat false (declConcat false false ss) ss = true ∧
+    taskConcat false false { which := 0 } (declConcat false false ss) ss = .frame [("a", .int), ("b", .float)] rangeIdx ∧
+    taskConcat false false { which := 1 } (declConcat false false ss) ss = .frame [("a", .int), ("b", .float)] rangeIdx := by
+  decide
+
+-- push-down below a merge: both sides pruned, suffixes kept, schema of the root unchanged
+example :
+    let q := Tree.un (.getCols ["b_y", "a"]) {} (.merge { how := .inner, leftOn := ["k"], rightOn := ["k"], ls := "_x", rs := "_y" } {}
+      (.src (.frame [("k", .int), ("a", .int), ("b", .float), ("u", .obj)] rangeIdx))
+      (.src (.frame [("k", .int), ("b", .bool), ("z", .obj)] rangeIdx)))
+    declT q = .frame [("b_y", .bool), ("a", .int)] rangeIdx ∧
+    (pushdown [] q).map declT = some (declT q) ∧ (pushdown [] q).isSome = true := by decide
+
+-- value_counts of a named series through a tree of depth 1
+example : compT (.un (.valueCounts true) { depth := 1, batch := 1 } (.src (.series (some "d") .obj rangeIdx))) =
+    .series (some "proportion") .float [(some "d", .obj)] := by decide
 
 end Dx
